@@ -61,7 +61,8 @@ def nontrivial(d):
 def construct_case(draw):
     d = draw(gen.datetimes())
     form = draw(st.sampled_from(["object", "object", "iso-T", "iso-space", "iso-Z", "epoch-int", "epoch-float",
-                                 "field-assign", "bytes-iso"]))
+                                 "field-assign", "bytes-iso", "ft-instance-construct", "ft-instance-assign",
+                                 "ft-instance-list", "ft-instance-replace"]))
     return {"dt": d, "form": form}
 
 
@@ -75,7 +76,29 @@ def check_construct(case, ctx):
         ctx.nontriv()
     exp_off = 0.0 if d.tzinfo is None else wall_off(d)[7]
     exp = wall_off(d)[:7] + (exp_off,)
-    if form in ("object", "field-assign"):
+    if form.startswith("ft-instance-"):
+        # the input is already an INSTANCE OF THE FIELD TYPE with d's wall time and tzinfo - what a caller holds after
+        # `other.ts.replace(tzinfo=...)` (naive when d is naive). Every way into a record must still give an aware value.
+        made = impl(lambda: ft.datetime(d if d.tzinfo is not None else d.replace(tzinfo=UTC)).replace(tzinfo=d.tzinfo, fold=d.fold))
+        if not made.ok or not isinstance(made.value, ft.datetime):
+            ctx.cls("ft-instance:not-constructible")
+            return
+        x = made.value
+        desc = RecordDescriptor("c13/fi", [("datetime", "ts"), ("datetime[]", "tl")])
+        if form == "ft-instance-construct":
+            res = impl(lambda: desc(ts=x, _generated=EPOCH).ts)
+        elif form == "ft-instance-assign":
+            def f():
+                r = desc(_generated=EPOCH)
+                r.ts = x
+                return r.ts
+            res = impl(f)
+        elif form == "ft-instance-list":
+            res = impl(lambda: desc(tl=[x], _generated=EPOCH).tl[0])
+        else:
+            res = impl(lambda: desc(_generated=EPOCH)._replace(ts=x).ts)
+        sig = "construct/field-type-instance"
+    elif form in ("object", "field-assign"):
         if form == "object":
             res = impl(ft.datetime, d)
         else:
